@@ -27,7 +27,7 @@ DELTAS = (None, timedelta(hours=-2), timedelta(seconds=-1), timedelta(microsecon
           timedelta(microseconds=400000), timedelta(seconds=1), timedelta(hours=2))
 KINDS = ("zoned", "utc", "floating", "date", "abs-utc", "abs-floating")  # abs-*: absolute TRIGGER (DATE-TIME)
 LOCAL = ("unset", "name", "object", "object-other")  # object-other: a tzinfo of the library that is NOT the active provider
-PATHS = ("setters", "add", "parsed")
+PATHS = ("setters", "add", "parsed", "setters+parsed")
 LOCAL_ZONE = "Europe/Berlin"
 # T as an instant (floating/date interpreted in LOCAL_ZONE, CEST = +2h on that day)
 T_WALL = datetime(2024, 6, 1, 10, 0)
@@ -48,7 +48,7 @@ def inst(kind, delta, shift=timedelta(0)):
 
 def build(case, a_delta):
     _, provider, path, kind, local, mode, c_i, s_i, nalarms = case
-    _PARSED[0] = path == "parsed"
+    _PARSED[0] = path in ("parsed", "setters+parsed")
     comp = Event()
     comp.add("uid", "c15")
     if kind == "zoned":
@@ -67,7 +67,10 @@ def build(case, a_delta):
     def put(target, attr, name, value):
         if value is None:
             return
-        if path == "setters":
+        if path in ("setters", "setters+parsed"):
+            if path == "setters+parsed" and isinstance(value, datetime) and value.tzinfo is not None and (c_i + s_i) % 2:
+                # the same instant, written down in another zone: the setters take any aware value for these UTC properties
+                value = value.astimezone(tzp.timezone("America/New_York" if nalarms == 2 else LOCAL_ZONE))
             setattr(target, attr, value)
         else:
             target.add(name, vDDDTypes(value))
@@ -101,7 +104,7 @@ def build(case, a_delta):
         comp.add_component(al)
         shift = timedelta(0) if i == 0 else (timedelta(days=-1) if kind == "date" else timedelta(hours=-1))
         specs.append({"T": T_INSTANT[kind] + shift, "A": ack})
-    if path == "parsed":
+    if path in ("parsed", "setters+parsed"):
         comp = Event.from_ical(comp.to_ical())
     return comp, cval, sval, specs
 
